@@ -13,6 +13,8 @@ import (
 	"sort"
 	"strings"
 
+	"github.com/cosmos/cosmos-sdk/store/prefix"
+	"github.com/cosmos/cosmos-sdk/types/module"
 	upgradetypes "github.com/cosmos/cosmos-sdk/x/upgrade/types"
 	"github.com/medibloc/panacea-core/v2/app"
 )
@@ -61,6 +63,7 @@ func (x *Exec) upgradeSchedule(name string) string {
 			x.Flag("C19-handler-missing", "no upgrade handler registered for "+u.UpgradeName)
 		}
 	}
+	shapeVersionMap(x.C, name)
 	plan := upgradetypes.Plan{Name: name, Height: x.C.Height + 1}
 	if err := x.C.App.UpgradeKeeper.ScheduleUpgrade(x.C.Ctx(), plan); err != nil {
 		return "U error"
@@ -71,6 +74,74 @@ func (x *Exec) upgradeSchedule(name string) string {
 	}
 	x.Stats["upgrade-scheduled"]++
 	return "U scheduled"
+}
+
+// baselineCustomVersions: the consensus versions the custom modules had in the releases this binary upgrades from (recorded at
+// design time, like the store baseline of Upgrade/Baseline.v; also emitted into GenUpgrade.v next to the binary's versions)
+var baselineCustomVersions = map[string]uint64{"aol": 1, "burn": 1, "did": 1, "pnft": 1}
+
+// shapeVersionMap makes the recorded module version map what the previous release left behind before the plan `name` runs:
+// the custom modules at their baseline versions, and no entry for a module whose store the plan's descriptor (or a later
+// one) adds.  On a binary whose versions equal the baseline and for the last plan (which adds no store) nothing changes.
+func shapeVersionMap(c *Chain, name string) {
+	ctx := c.Ctx()
+	vm := c.App.UpgradeKeeper.GetModuleVersionMap(ctx)
+	set := module.VersionMap{}
+	for m, v := range baselineCustomVersions {
+		if _, ok := vm[m]; ok {
+			set[m] = v
+		}
+	}
+	c.App.UpgradeKeeper.SetModuleVersionMap(ctx, set)
+	from := -1
+	for i, u := range app.Upgrades {
+		if u.UpgradeName == name {
+			from = i
+		}
+	}
+	if from < 0 {
+		return
+	}
+	st := prefix.NewStore(ctx.KVStore(c.App.GetKey(upgradetypes.StoreKey)), []byte{upgradetypes.VersionMapByte})
+	for _, u := range app.Upgrades[from:] {
+		for _, added := range u.StoreUpgrades.Added {
+			if _, ok := vm[added]; ok {
+				st.Delete([]byte(added))
+			}
+			// the store itself did not exist before that release: empty it (the generator asks for such a plan only on
+			// histories without PNFT traffic)
+			if key := c.App.GetKey(added); key != nil {
+				kv := ctx.KVStore(key)
+				var keys [][]byte
+				it := kv.Iterator(nil, nil)
+				for ; it.Valid(); it.Next() {
+					keys = append(keys, append([]byte{}, it.Key()...))
+				}
+				it.Close()
+				for _, k := range keys {
+					kv.Delete(k)
+				}
+			}
+		}
+	}
+}
+
+// runnablePlans: the plans whose handler this binary can be asked to run on a disk it can load: no later descriptor adds,
+// deletes or renames a store
+func runnablePlans() []string {
+	var out []string
+	for i, u := range app.Upgrades {
+		ok := true
+		for _, l := range app.Upgrades[i+1:] {
+			if len(l.StoreUpgrades.Added)+len(l.StoreUpgrades.Deleted)+len(l.StoreUpgrades.Renamed) > 0 {
+				ok = false
+			}
+		}
+		if ok {
+			out = append(out, u.UpgradeName)
+		}
+	}
+	return out
 }
 
 // upgradeBegin wraps the BeginBlock at the plan height
@@ -114,7 +185,8 @@ var probesEmitted bool
 
 func genUpgradeHistory(r *RNG, nBlocks int) []string {
 	var inner []string
-	switch r.Intn(3) {
+	kind := r.Intn(3)
+	switch kind {
 	case 0:
 		inner = genAolHistory(r.Fork(), nBlocks)
 	case 1:
@@ -123,6 +195,14 @@ func genUpgradeHistory(r *RNG, nBlocks int) []string {
 		inner = genDidHistory(r.Fork(), nBlocks)
 	}
 	name := app.Upgrades[len(app.Upgrades)-1].UpgradeName
+	last := true
+	if plans := runnablePlans(); len(plans) > 1 && kind != 1 && r.Chance(35) {
+		// an earlier plan this binary also carries a handler for (a node that skipped releases): the version map is shaped to
+		// what the release before it recorded; no restart at or inside the upgrade block (the store loader of that plan would
+		// add stores this chain already has)
+		name = plans[r.Intn(len(plans)-1)]
+		last = false
+	}
 	// once per run: this binary started at the height of each descriptor on the disk left by the previous ones
 	if !probesEmitted {
 		probesEmitted = true
@@ -142,6 +222,9 @@ func genUpgradeHistory(r *RNG, nBlocks int) []string {
 	}
 	at := 1 + r.Intn(nb-2)
 	mode := r.Intn(5) // where the node is stopped: 0 never, 1 before, 2 at, 3 inside the upgrade block, 4 after
+	if !last && (mode == 2 || mode == 3) {
+		mode = pick(r, []int{0, 1, 4})
+	}
 	var out []string
 	b := 0
 	var cur string
